@@ -4,11 +4,13 @@ import json, os, re, shutil, subprocess, sys, time, hashlib
 
 VERIF = os.path.dirname(os.path.dirname(os.path.abspath(__file__)))
 SPEC = os.path.join(VERIF, "spec")
-WORK = os.path.join(VERIF, "work")
-HARNESS = os.path.join(VERIF, "harness")
+# (the three overrides let a second instance - e.g. one that tries a modified copy of the repository through a copy of
+# the harness - run next to the registered commands without sharing scratch files, binaries or evidence)
+WORK = os.environ.get("VERIF_WORK") or os.path.join(VERIF, "work")
+HARNESS = os.environ.get("VERIF_HARNESS") or os.path.join(VERIF, "harness")
 VH = os.path.join(HARNESS, "target", "release", "vh")
-EVIDENCE = os.path.join(VERIF, "evidence")
-REPLAYS = os.path.join(VERIF, "work", "replays")
+EVIDENCE = os.environ.get("VERIF_EVIDENCE") or os.path.join(VERIF, "evidence")
+REPLAYS = os.path.join(WORK, "replays")
 KNOWN = os.path.join(VERIF, "known_findings.jsonl")
 TLC_WORKERS = int(os.environ.get("VERIF_TLC_WORKERS", "8"))
 
